@@ -89,7 +89,7 @@ MarkSpent(s, outpoints) == [s EXCEPT !.coins = {IF <<c.t, c.n>> \in outpoints TH
 
 \* ---- creating a transaction.  q: the request, x: the transaction returned
 \* q = [recips: Seq([id, v]), fee (explicit, or -1), minconf, inkeys (set of key ids, {} = any), sweep: BOOLEAN,
-\*      feemin, feemax, nexplicit, explicit (set of <<t, n>>), above, acct]
+\*      feemin, feemax, nexplicit, explicit (set of <<t, n>>), above, acct, named]
 \* x = [ins: Seq([t, n, v]), outs: Seq([v, key (own key id or 0), rid (index into recips or 0)]), fee, vsize]
 \* (the property asks for unspent outputs "of this wallet": an input drawn from another account of the same wallet - as
 \* bumpfee does when it adds an input - is allowed; q.acct only says which account the request named)
@@ -100,7 +100,7 @@ InputOK(s, q, in) == \E c \in Spendable(s, q) : c.t = in.t /\ c.n = in.n /\ c.v 
 \* explicit input list (q.nexplicit > 0, q.explicit: set of <<t, n>>): the transaction spends exactly the listed outpoints;
 \* they are subject to the same rules (distinct, unspent, of this wallet) - only min_confirms is documented as ignored
 OutPts(x) == {<<x.ins[i].t, x.ins[i].n>> : i \in 1..Len(x.ins)}
-TxWhyG(s, q, x, InOK(_), maxtol) ==
+TxWhyG(s, q, x, InOK(_), maxtol, mintol) ==
     IF Len(x.ins) = 0 THEN "no-inputs"
     ELSE IF ~InsDistinct(x) THEN "input-used-twice"
     ELSE IF q.nexplicit > 0 /\ OutPts(x) # q.explicit THEN "inputs-differ-from-the-explicit-list"
@@ -117,24 +117,39 @@ TxWhyG(s, q, x, InOK(_), maxtol) ==
     ELSE IF q.above >= 0 /\ x.fee <= q.above THEN "bumped-fee-not-higher"
     \* fee rate limits (per 1000 vbytes), with 3% tolerance for the difference between estimated and final size;
     \* q.feemin / q.feemax = 0: limit not checked (value outside this model's integer range)
-    ELSE IF x.vsize > 0 /\ q.feemin > 0 /\ x.fee < ((q.feemin \div 1000) * x.vsize * 97 + 99) \div 100 THEN "fee-rate-below-network-minimum"
+    ELSE IF x.vsize > 0 /\ q.feemin > 0 /\ x.fee < ((q.feemin \div 1000) * x.vsize * mintol + 99) \div 100 THEN "fee-rate-below-network-minimum"
     ELSE IF x.vsize > 0 /\ q.feemax > 0 /\ x.fee > ((q.feemax \div 1000) * x.vsize * maxtol) \div 100 THEN "fee-rate-above-network-maximum"
     ELSE "ok"
-TxWhy(s, q, x) == TxWhyG(s, q, x, LAMBDA in : InputOK(s, q, in), 103)
+TxWhy(s, q, x) == TxWhyG(s, q, x, LAMBDA in : InputOK(s, q, in), 103, 97)
 \* named deviations
 \*   "explicit-input-already-spent": an explicitly listed outpoint is taken without looking at the ledger's spent flag (an
 \*      output of this wallet with that value, spent by a stored transaction of this wallet or by a report)
 \*   "fee-limit-on-estimated-size": the upper fee-rate limit is enforced on the size estimated before signing, which
 \*      for witness inputs is up to a third larger than the final virtual size - a fee up to 35% above the limit passes
+\*   "named-fee-computed-before-the-inputs-are-known": a fee asked for by name ('low', 'normal', 'high'; q.named) is the
+\*      provider's rate times the size estimated BEFORE the inputs are chosen; with several inputs, multisig inputs or a
+\*      random number of change outputs the rate actually paid falls below the network minimum
 KnownCoin(s, in) == \E c \in s.coins : c.t = in.t /\ c.n = in.n /\ c.v = in.v
+\* the fewest named deviations that explain the transaction: e \in {0,1} explicit inputs taken without the spent flag,
+\* m \in {0,1} upper limit on the estimated size, n \in {0,1} named fee not held to the minimum rate
+TxWhyDev(s, q, x, e, m, n) ==
+    TxWhyG(s, q, x, LAMBDA in : IF e = 1 THEN KnownCoin(s, in) ELSE InputOK(s, q, in),
+           IF m = 1 THEN 135 ELSE 103, IF n = 1 THEN 0 ELSE 97)
+DevName(e, m, n) ==
+    LET a == IF e = 1 THEN <<"explicit-input-already-spent">> ELSE <<>>
+        b == IF m = 1 THEN <<"fee-limit-on-estimated-size">> ELSE <<>>
+        c == IF n = 1 THEN <<"named-fee-computed-before-the-inputs-are-known">> ELSE <<>>
+        l == a \o b \o c
+    IN IF Len(l) = 1 THEN l[1] ELSE IF Len(l) = 2 THEN l[1] \o "+" \o l[2] ELSE l[1] \o "+" \o l[2] \o "+" \o l[3]
 TxDev(s, q, x) ==
-    LET strictIn(in) == InputOK(s, q, in)
-        knownIn(in) == KnownCoin(s, in) IN
     IF TxWhy(s, q, x) = "ok" THEN ""
-    ELSE IF q.nexplicit > 0 /\ TxWhyG(s, q, x, knownIn, 103) = "ok" THEN "explicit-input-already-spent"
-    ELSE IF TxWhyG(s, q, x, strictIn, 135) = "ok" THEN "fee-limit-on-estimated-size"
-    ELSE IF q.nexplicit > 0 /\ TxWhyG(s, q, x, knownIn, 135) = "ok" THEN "explicit-input-already-spent+fee-limit-on-estimated-size"
-    ELSE ""
+    ELSE LET C == {c \in {0, 1} \X {0, 1} \X {0, 1} : /\ c # <<0, 0, 0>>
+                                                      /\ (c[1] = 1 => q.nexplicit > 0) /\ (c[3] = 1 => q.named)
+                                                      /\ TxWhyDev(s, q, x, c[1], c[2], c[3]) = "ok"}
+         IN IF C = {} THEN ""
+            ELSE LET best == CHOOSE c \in C : \A d \in C : c[1] + c[2] + c[3] < d[1] + d[2] + d[3]
+                                                             \/ (c[1] + c[2] + c[3] = d[1] + d[2] + d[3] /\ c[1] * 4 + c[2] * 2 + c[3] >= d[1] * 4 + d[2] * 2 + d[3])
+                 IN DevName(best[1], best[2], best[3])
 \* (with an explicit input list: the listed outputs; whether they may be spent at all is judged by TxWhy)
 Pool(s, q) == IF q.nexplicit > 0 THEN {c \in s.coins : <<c.t, c.n>> \in q.explicit} ELSE Spendable(s, q)
 Insufficient(s, q) == SumV(Pool(s, q)) < ReqTotal(q) + (IF q.fee > 0 THEN q.fee ELSE 0)
